@@ -39,7 +39,7 @@ def strings_job(n):
                     out.append(("C14.parse", False, key, f"Stabilizer({lst}) raised {type(e).__name__}: {e}", rp))
                     continue
                 x, z, s = P.from_label(sign + body)
-                ok = st.num_qubits == n and st.R.dtype == np.int8 and st.S.dtype == np.int8
+                ok = st.num_qubits == n and st.R.dtype.kind in "iub" and st.S.dtype.kind in "iub"      # integer-typed; which integer type is not part of the property
                 for j in range(n):
                     for q in range(n):
                         wx = (x >> q) & 1 if j == pos else 0
@@ -96,7 +96,7 @@ def formats_job(args):
         b = Stabilizer((R, S, ph))
         c = Stabilizer((R64, S64, ph64))
         d = Stabilizer((R, S))
-        ok = a == b and b == c and all(x.R.dtype == np.int8 and x.S.dtype == np.int8 and x.phases.dtype == np.int8 for x in (a, b, c, d)) \
+        ok = a == b and b == c and all(x.R.dtype.kind in "iub" and x.S.dtype.kind in "iub" and x.phases.dtype.kind in "iub" for x in (a, b, c, d)) \
             and np.array_equal(d.R, R) and np.array_equal(d.S, S) and not d.phases.any() and len(d.phases) == n \
             and np.array_equal(R64, Rb) and np.array_equal(S64, Sb) and np.array_equal(ph64, pb) and a.to_list() == labels
         out.append(("C14.cross_format", ok, f"fmt:{n}:{labels}", f"string / int8 matrix / int64 matrix forms of {labels} disagree (or inputs modified)", {"n": n, "paulis": labels}))
